@@ -7,7 +7,8 @@
 //! * `zst`: `HashMap<(), ()>`, `HashSet<()>`, `HashMap<(), u64>` (zero-sized element resp. zero-sized key) with
 //!   many capacities and hasher seeds — at most one element, so the reference is an `Option`;
 //! * `zst-drop`: zero-sized elements WITH drop glue (`HashSet<Tok>`, `HashMap<Tok, ()>`, `HashMap<(), Tok>`,
-//!   `HashTable<Tok>`): tokens made minus tokens dropped equals tokens stored, at every step and at the end.
+//!   `HashTable<Tok>`): tokens made minus tokens dropped equals tokens stored, at every step and at the end;
+//! * `zst-align`: zero-sized elements of alignment 8 / 64: every reference handed out is aligned for its type.
 //!
 //! One line per scenario: `scn <kind>-<seed>-<i> [ORACLE-XHASH(..)|ORACLE-ZST(..)]`. A scenario is replayed by
 //! running `hbv extras <seed> <count> <prefix>` again (everything derives from the seed).
@@ -888,12 +889,89 @@ fn zst_drop_one(rng: &mut Rng) -> Result<(), String> {
     Ok(())
 }
 
+// ---------------------------------------------------------------------------------------------------------
+// zero-sized elements with an alignment above 1 (`[u64; 0]`, a `#[repr(align(64))]` unit struct): every reference
+// the safe API hands out must be aligned for its type (a misaligned `&T` is undefined behaviour even for a ZST).
+#[repr(align(64))]
+#[derive(Clone, Copy, PartialEq, Eq, Hash, Debug, Default)]
+struct Wide;
+
+fn aligned<T>(what: &str, r: &T) -> Result<(), String> {
+    let a = r as *const T as usize;
+    if a == 0 || a % std::mem::align_of::<T>() != 0 {
+        return Err(format!("{}: reference {:#x} handed out for a type of alignment {}", what, a, std::mem::align_of::<T>()));
+    }
+    Ok(())
+}
+
+fn zst_align_one(rng: &mut Rng) -> Result<(), String> {
+    let cap = *rng.pick(&[0usize, 1, 3, 4, 7, 8, 14, 15, 28, 29, 56, 100]);
+    let seed = rng.next();
+    // HashTable: the caller chooses the hash, hence the bucket
+    let mut t: hashbrown::HashTable<[u64; 0]> = hashbrown::HashTable::with_capacity(cap);
+    let h = rng.next();
+    aligned("HashTable::insert_unique", t.insert_unique(h, [], |_| h).get())?;
+    aligned("HashTable::find", t.find(h, |_| true).ok_or("HashTable::find lost the element")?)?;
+    aligned("HashTable::find_mut", t.find_mut(h, |_| true).ok_or("HashTable::find_mut lost the element")?)?;
+    for r in t.iter() {
+        aligned("HashTable::iter", r)?;
+    }
+    for r in t.iter_mut() {
+        aligned("HashTable::iter_mut", r)?;
+    }
+    for r in t.iter_hash(h) {
+        aligned("HashTable::iter_hash", r)?;
+    }
+    if let Ok(e) = t.find_entry(h, |_| true) {
+        aligned("OccupiedEntry::get", e.get())?;
+    }
+    t.reserve(rng.below(64) as usize, |_| h);
+    for r in t.iter() {
+        aligned("HashTable::iter after reserve", r)?;
+    }
+    // HashMap<(), Wide> / HashMap<Wide, ()> / HashSet<[u64; 0]>
+    let mut m: HashMap<(), Wide, Seeded> = HashMap::with_capacity_and_hasher(cap, Seeded(seed));
+    aligned("HashMap::entry().or_insert", m.entry(()).or_insert(Wide))?;
+    aligned("HashMap::get", m.get(&()).ok_or("HashMap::get lost the element")?)?;
+    aligned("HashMap::get_mut", m.get_mut(&()).ok_or("HashMap::get_mut lost the element")?)?;
+    for (_, v) in m.iter() {
+        aligned("HashMap::iter", v)?;
+    }
+    for v in m.values_mut() {
+        aligned("HashMap::values_mut", v)?;
+    }
+    let [Some(v)] = m.get_many_mut([&()]) else { return Err("get_many_mut lost the element".into()) };
+    aligned("HashMap::get_many_mut", v)?;
+    m.shrink_to_fit();
+    aligned("HashMap::get after shrink_to_fit", m.get(&()).ok_or("lost after shrink_to_fit")?)?;
+    let mut mk: HashMap<Wide, (), Seeded> = HashMap::with_capacity_and_hasher(cap, Seeded(seed ^ 1));
+    mk.insert(Wide, ());
+    aligned("HashMap::get_key_value", mk.get_key_value(&Wide).ok_or("get_key_value lost the element")?.0)?;
+    for k in mk.keys() {
+        aligned("HashMap::keys", k)?;
+    }
+    let mut s: HashSet<[u64; 0], Seeded> = HashSet::with_capacity_and_hasher(cap, Seeded(seed ^ 2));
+    aligned("HashSet::get_or_insert", s.get_or_insert([]))?;
+    aligned("HashSet::get", s.get(&[]).ok_or("HashSet::get lost the element")?)?;
+    for r in s.iter() {
+        aligned("HashSet::iter", r)?;
+    }
+    let c = s.clone();
+    for r in c.iter() {
+        aligned("HashSet::clone().iter", r)?;
+    }
+    for r in s.drain() {
+        aligned("HashSet::drain", &r)?;
+    }
+    Ok(())
+}
+
 pub fn run(seed: u64, count: usize, prefix: &str) {
     use std::io::Write;
     let mut ops = std::io::BufWriter::new(std::fs::File::create(format!("{}.ops", prefix)).unwrap());
     let mut real = std::io::BufWriter::new(std::fs::File::create(format!("{}.real", prefix)).unwrap());
     for i in 0..count {
-        for (kind, tag) in [("xhash-sets", "XHASH"), ("xhash-maps", "XHASH"), ("zst", "ZST"), ("misc", "MISC"), ("xhash-clone-panic", "XHASH"), ("owning-fold", "MISC"), ("zst-drop", "ZST")] {
+        for (kind, tag) in [("xhash-sets", "XHASH"), ("xhash-maps", "XHASH"), ("zst", "ZST"), ("misc", "MISC"), ("xhash-clone-panic", "XHASH"), ("owning-fold", "MISC"), ("zst-drop", "ZST"), ("zst-align", "ZST")] {
             let mut rng = Rng::new(crate::tape::mix3(seed, i as u64, kind.len() as u64));
             let id = format!("scn extras-{}-{}-{}", kind, seed, i);
             writeln!(ops, "{}", id).unwrap();
@@ -904,6 +982,7 @@ pub fn run(seed: u64, count: usize, prefix: &str) {
                 "xhash-clone-panic" => xhash_clone_panic(&mut rng),
                 "owning-fold" => owning_fold_mixed(&mut rng),
                 "zst-drop" => zst_drop_one(&mut rng),
+                "zst-align" => zst_align_one(&mut rng),
                 _ => zst_one(&mut rng),
             }));
             let verdict = match r {
